@@ -420,8 +420,31 @@ def lowerFirst (name : Bytes) : Bytes :=
   | [] => []
   | c :: r => (c ||| 32) :: r
 
-/-- the datum for a field: `vm[k]`, else `vm[sf.Name]`, else first letter lowered, else all lower -/
-def fieldDatum (vm : List (Bytes × JV)) (k : Bytes) (e : IdxEntry) : Option JV :=
+/-- since /repo 1029e85: a fallback spelling that is the key of ANOTHER index entry is not offered
+(`if _, claimed := im[name]; claimed && name != k`): a member filed under another field's key is that
+field's -/
+def claimedName (im : List (Bytes × IdxEntry)) (k name : Bytes) : Bool :=
+  name != k && im.any fun ke => ke.1 == name
+
+def otherLookup (im : List (Bytes × IdxEntry)) (vm : List (Bytes × JV)) (k name : Bytes) : Option JV :=
+  if claimedName im k name then none else jvLookup vm name
+
+/-- the datum for a field: `vm[k]`, else — through `other`, which skips a name claimed by another index
+entry — `vm[sf.Name]`, else first letter lowered, else all lower; `im` is the whole field index -/
+def fieldDatum (im : List (Bytes × IdxEntry)) (vm : List (Bytes × JV)) (k : Bytes) (e : IdxEntry) : Option JV :=
+  match jvLookup vm k with
+  | some m => some m
+  | none =>
+    match otherLookup im vm k e.name with
+    | some m => some m
+    | none =>
+      match otherLookup im vm k (lowerFirst e.name) with
+      | some m => some m
+      | none => otherLookup im vm k (asciiLowerAll (lowerFirst e.name))
+
+/-- the lookups BEFORE /repo 1029e85 (finding `C16-omitted-member-sibling-spelling`, fixed): every spelling
+was offered, also one that is a sibling's key -/
+def fieldDatumBefore (vm : List (Bytes × JV)) (k : Bytes) (e : IdxEntry) : Option JV :=
   match jvLookup vm k with
   | some m => some m
   | none =>
@@ -437,15 +460,15 @@ def isNull : JV → Bool
   | _ => false
 
 /-- the fields of a struct: for every index entry with a datum that is not nil, `setValue` -/
-def stepFields (zero : GoType → GoVal) (setv : Registry → JV → GoType → IdxEntry → Step) (t : GoType)
+def stepFields (im : List (Bytes × IdxEntry)) (zero : GoType → GoVal) (setv : Registry → JV → GoType → IdxEntry → Step) (t : GoType)
     (vm : List (Bytes × JV)) : Registry → List (Bytes × IdxEntry) → GoVal → Step
   | r, [], cur => ⟨.ok cur, r⟩
   | r, (k, e) :: rest, cur =>
     -- since b19f06c the field is fetched only when there is a datum to store
-    match fieldDatum vm k e with
-    | none => stepFields zero setv t vm r rest cur
+    match fieldDatum im vm k e with
+    | none => stepFields im zero setv t vm r rest cur
     | some m =>
-      if isNull m then stepFields zero setv t vm r rest cur
+      if isNull m then stepFields im zero setv t vm r rest cur
       else
         match typeAt t e.index with
         | none => ⟨.panic, r⟩                              -- a foreign index that leads nowhere
@@ -456,7 +479,7 @@ def stepFields (zero : GoType → GoVal) (setv : Registry → JV → GoType → 
             ⟨(match ft with | .struct _ _ _ => .outside | _ => .panic), r⟩
           else
             match setv r m ft e with
-            | ⟨.ok x, r'⟩ => stepFields zero setv t vm r' rest (setAt zero t cur e.index x)
+            | ⟨.ok x, r'⟩ => stepFields im zero setv t vm r' rest (setAt zero t cur e.index x)
             | st => st
 
 
@@ -579,7 +602,7 @@ def recStruct (cf : ComposerFor) (rec : Rec) (r : Registry) (name pkg : Bytes) (
     match cf r name pkg fs with
     | (none, r') => ⟨.panic, r'⟩
     | (some c, r') =>
-      stepFields (zeroVal fuelZ) (fun r'' m ft e => rec r'' 2 m ft (some e)) (.struct name pkg fs) vm r' c.indexes
+      stepFields c.indexes (zeroVal fuelZ) (fun r'' m ft e => rec r'' 2 m ft (some e)) (.struct name pkg fs) vm r' c.indexes
         (zeroVal fuelZ (.struct name pkg fs))
   | _ => ⟨.panic, r⟩
 
